@@ -400,10 +400,17 @@ func (r *xdsResolver) newConfigSelector() (_ *configSelector, err error) {
 
 	defer func() {
 		if err != nil {
-			// Stop the config selector if an error occurs during construction
-			// to ensure that interceptors that were created successfully before
-			// the error are cleaned up.
-			cs.stop()
+			// Release the route clusters that were built before the error
+			// occurred, to ensure that interceptors that were created
+			// successfully are cleaned up. Do not call cs.stop() here: no
+			// clusterInfo reference has been taken at this point, and
+			// cs.stop() would release references held by the current config
+			// selector and by in-flight RPCs.
+			for _, rt := range cs.routes {
+				for _, rc := range rt.routeClusters {
+					rc.Decrement()
+				}
+			}
 		}
 	}()
 
